@@ -277,6 +277,10 @@ ROOT_TABLES = {
     "cubic_sym": ([-2, -1, 0, 1, 2], lambda x: x ** 3 + 3.0, [-2, -1.5, -1, 0, 1, 1.5, 2, -3, 3, 0.5, -0.5, 1.9]),
     "cubic_sym2": ([0, 1, 2, 3, 4, 5, 6], lambda x: (x - 4.0) ** 3 + 2.0, [0, 2, 2.5, 3, 4, 5, 6, -1, 7, 1, 3.5, 4.5]),
     "quartic_min": ([-3, -2, -1, 0, 1, 2, 3], lambda x: x ** 4 / 4.0 + 2.0 * x, [-3, -2, -1.5, -1, 0, 1, 2, 3, -4, 4, -1.3, -1.2]),
+    # roots of odd multiplicity: the interpolant changes sign, the derivative vanishes AT the root (regula falsi stalls)
+    "triple": ([0, 1, 2, 3, 4, 5, 6], lambda x: (x - 3.1) ** 3, [0, 1, 2.5, 3, 3.1, 3.2, 4, 5, 6, -1, 7, 3.05]),
+    "triple_x": ([0, 1, 2, 3, 4, 5, 6], lambda x: (x - 3.1) ** 3 * (x + 1.0), [0, 1, 2.5, 3, 3.1, 3.2, 4, 5, 6, -1, 7, 3.05]),
+    "quintuple": ([0, 1, 2, 3, 4, 5, 6], lambda x: (x - 2.7) ** 5 / 10.0, [0, 1, 2.5, 2.7, 3, 3.2, 4, 5, 6, -1, 7, 2.65]),
     "sine": ([1, 2, 3, 4, 5, 6, 7], math.sin,
              [1, 2, 3, 3.1, 3.2, 4, 5, 6, 6.2, 6.3, 7, 0.0, 8.0, 6.5]),
     "offset": ([27.0, 27.5, 28.0, 28.5, 29.0], lambda x: (x - 28.1) * (x - 26.0) * 0.3,
